@@ -346,5 +346,13 @@ def r15_7(ctx):
 r15_7.rule_id = "R15.7"
 
 
-RULES = [r15_1, r15_2, r15_3, r15_4, r15_5, r15_6, r15_7]
-FLOORS = {"R15.1": 20, "R15.2": 150, "R15.3": 20, "R15.4": 40, "R15.5": 20, "R15.6": 1, "R15.7": 3}
+def r15_8(ctx):
+    from . import ellen
+    n = ellen.rule_publish_init_agreement(ctx, "R15.8", R)
+    if n < 3:
+        ctx.broken("EllenBinTree::try_insert publishing paths not found (%d)" % n)
+r15_8.rule_id = "R15.8"
+
+
+RULES = [r15_1, r15_2, r15_3, r15_4, r15_5, r15_6, r15_7, r15_8]
+FLOORS = {"R15.1": 20, "R15.2": 150, "R15.3": 20, "R15.4": 40, "R15.5": 20, "R15.6": 1, "R15.7": 3, "R15.8": 3}
